@@ -283,6 +283,8 @@ def case_strategy():
 def jobs(tier, seed):
     js = [{"kind": "enum", "shard": s, "nshards": 12} for s in range(12)] + [{"kind": "disconnect", "shard": s, "nshards": 2} for s in range(2)]
     js.append({"kind": "early", "n": 40 if tier == "quick" else 1500, "seed": derive_seed(seed, "c09e")})
+    for sh in range(4):
+        js.append({"kind": "early_sys", "shard": sh, "nshards": 4, "bound": 1 if tier == "quick" else 2, "max_runs": 400 if tier == "quick" else 6000})
     for i in range(4):
         js.append({"kind": "race_sys", "index": i, "bound": 2 if tier == "quick" else 3, "max_runs": 5000 if tier == "quick" else 60000})
     for sh in range(4):
@@ -316,6 +318,18 @@ def run_job(job, col):
             one(c)
             for _ in range(job["n"] // 8):
                 one(dict(c, schedule={"kind": "hot", "seed": rnd.randrange(10 ** 9), "p_hot": 0.35, "p_cold": 0.02}))
+    elif job["kind"] == "early_sys":
+        # client gone (EOF / reset) right after sending, read-ahead 1..2: every schedule with <= bound deviations from the default one
+        for i, base in enumerate(early_cases()):
+            if i % job["nshards"] != job["shard"]:
+                continue
+
+            def runner_(src, base=base):
+                fs, nt, labels, trace, sched = run_case_full(base, source=src, record=True)
+                return sched, (fs, nt, labels)
+
+            for trace, (fs, nt, labels) in simsched.systematic(runner_, job["bound"], job["max_runs"]):
+                col.record(dict(base, schedule=S.replay_spec(trace)), fs, nontrivial=nt, labels=set(labels) | {"early-systematic"})
     elif job["kind"] == "race_sys":
         # every schedule with at most `bound` deviations from the default one, for four failure x late-request scenarios
         base = [{"shape": 0, "raise_at": ["call"], "exc": "ValueError", "split": True, "lookahead": 1},
